@@ -7,7 +7,10 @@ import decsuite as ds
 import gen
 import msggen
 
-THEOREMS = ["C07.c07_prim", "C07.c07_pump_events_mode_free", "runWalker_acct"]
+THEOREMS = ["C07.c07_prim", "C07.c07_pump_events_mode_free", "runWalker_acct",
+            "MRel.bind", "MRel.ownCatch", "MRel.msgCatch", "decode_mrel", "decodeCommand_mrel", "decodeResponse_mrel", "decodeStream_mrel",
+            "runWalker_mrel", "runWalker_nw", "C07.c07_strict_ok", "C07.c07_first_problem", "C07.c07_same_stop",
+            "C07.c07_strict_no_warning", "C07.c07_no_warning"]
 
 
 def build_inputs(ctx, rnd):
@@ -119,5 +122,5 @@ def run(ctx, replay_case):
 
 
 PROP = {"targets": ["TpmProofs.Props.C07"], "module": "TpmProofs.Props.C07", "theorems": THEOREMS, "run": run,
-        "assumptions": ["the simulation up to the first problem over whole messages is monitored on the implementation and tied to the model by "
-                        "correspondence in both modes; the per-field agreement is a theorem"]}
+        "assumptions": ["the relation between the modes (runWalker_mrel) is a theorem about the model for every input; the model is tied to the "
+                        "implementation by correspondence in both modes, and the relation is also monitored on the implementation"]}
